@@ -299,4 +299,81 @@ var Progs = []Prog{
 		close(quit)
 		return join([]string{r, <-got, <-got})
 	}},
+	{"cond-signal-one-of-two-waiters", func(yield func()) string {
+		var mu sync.Mutex
+		cond := sync.NewCond(&mu)
+		ready, woken := 0, 0
+		var wg sync.WaitGroup
+		for i := 0; i < 2; i++ {
+			wg.Add(1)
+			go func() {
+				defer wg.Done()
+				mu.Lock()
+				for ready == 0 {
+					cond.Wait()
+				}
+				ready--
+				woken++
+				mu.Unlock()
+			}()
+		}
+		yield()
+		mu.Lock()
+		ready = 1
+		mu.Unlock()
+		cond.Signal()
+		yield()
+		mu.Lock()
+		ready++
+		mu.Unlock()
+		cond.Broadcast()
+		wg.Wait()
+		return fmt.Sprintf("woken%d/ready%d", woken, ready)
+	}},
+	{"syncmap-loadorstore-race", func(yield func()) string {
+		var m sync.Map
+		res := make(chan string, 2)
+		for i := 1; i <= 2; i++ {
+			go func(i int) {
+				v, loaded := m.LoadOrStore("k", i)
+				res <- fmt.Sprintf("%d:%v", v, loaded)
+			}(i)
+		}
+		a, b := <-res, <-res
+		n := 0
+		m.Range(func(k, v any) bool { n++; return true })
+		return join([]string{a, b}) + fmt.Sprintf("/n%d", n)
+	}},
+	{"oncevalue-two-callers", func(yield func()) string {
+		var calls atomic.Int32
+		f := sync.OnceValue(func() int { return int(calls.Add(1)) })
+		res := make(chan int, 2)
+		go func() { res <- f() }()
+		go func() { res <- f() }()
+		return fmt.Sprintf("%d%d/calls%d", <-res, <-res, calls.Load())
+	}},
+	{"context-afterfunc-and-cause", func(yield func()) string {
+		ctx, cancel := context.WithCancelCause(context.Background())
+		child, cancelChild := context.WithCancel(context.WithValue(ctx, "k", "v"))
+		defer cancelChild()
+		ran := make(chan string, 1)
+		stop := context.AfterFunc(child, func() { ran <- fmt.Sprint(context.Cause(child), child.Value("k")) })
+		yield()
+		cancel(fmt.Errorf("why"))
+		<-child.Done()
+		r := <-ran
+		return fmt.Sprintf("%s/stop=%v/err=%v", r, stop(), child.Err())
+	}},
+	{"context-child-of-cancelled-parent", func(yield func()) string {
+		ctx, cancel := context.WithCancel(context.Background())
+		cancel()
+		child, cancelChild := context.WithCancel(ctx)
+		defer cancelChild()
+		select {
+		case <-child.Done():
+			return "done:" + child.Err().Error()
+		default:
+			return "not-done"
+		}
+	}},
 }
